@@ -14,6 +14,7 @@ from liquid.builtin.expressions import Filter
 from liquid.builtin.expressions import KeywordArgument
 from liquid.builtin.expressions import PositionalArgument
 from liquid.builtin.expressions import StringLiteral
+from liquid.exceptions import LiquidTypeError
 from liquid.filter import int_arg
 from liquid.messages import MESSAGES
 from liquid.messages import MessageText
@@ -81,10 +82,16 @@ class BaseTranslateFilter:
         return Markup(text) if isinstance(message_text, Markup) else text
 
     def _resolve_translations(self, context: RenderContext) -> Translations:
-        return cast(
-            Translations,
-            context.resolve(self.translations_var, default=self.default_translations),
+        translations = context.resolve(
+            self.translations_var, default=self.default_translations
         )
+        if not hasattr(translations, "gettext"):
+            raise LiquidTypeError(
+                f"expected a translations object, "
+                f"found {type(translations).__name__}",
+                token=None,
+            )
+        return cast(Translations, translations)
 
 
 class Translate(BaseTranslateFilter, TranslatableFilter):
